@@ -532,6 +532,19 @@ func runHistory(hc histCase) {
 		}
 		finalCanon = canonDoc(doc)
 		digests = append(digests, md5hex(finalCanon))
+		// the exact bytes Put wrote for its entry (json.Marshal(AuthConfig), re-indented by
+		// MarshalIndent): compared with the model's entry_bytes
+		if o.Op == "P" && lastPut[o.Addr] != nil && *lastPut[o.Addr] == o && doc != nil && doc.k == jObj {
+			if a := doc.get("auths"); a != nil && a.k == jObj {
+				if e := a.get(o.Addr); e != nil && e.k == jObj {
+					bid := run.NewID()
+					run.Case(bid, fmt.Sprintf("FB %s %s %s %s", common.Hex(o.U), common.Hex(o.P), common.Hex(o.R), common.Hex(o.A)),
+						"BYTES "+common.Hex(stripSpace(e.src)))
+					run.Count("put:entry-bytes-compared")
+					run.Evaluations--
+				}
+			}
+		}
 		if doc == nil {
 			if saved {
 				fail("file-missing", "config file missing after a save")
